@@ -75,6 +75,32 @@ Fixpoint ty_equals (t u : ty) {struct t} : bool :=
   | _, _ => false
   end.
 
+(* typesMayBecomeEqual (cty/value_ops.go): false only if no replacement of the placeholders in
+   either type could make the two types equal *)
+Fixpoint may_become_equal (a b : ty) {struct a} : bool :=
+  match a, b with
+  | TDyn, _ | _, TDyn => true
+  | TList x, TList y | TSet x, TSet y | TMap x, TMap y => may_become_equal x y
+  | TTuple as_, TTuple bs =>
+      Nat.eqb (length as_) (length bs) &&
+      (fix go (l1 l2 : list ty) : bool :=
+         match l1, l2 with
+         | x :: l1', y :: l2' => may_become_equal x y && go l1' l2'
+         | _, _ => true
+         end) as_ bs
+  | TObj a1 _, TObj a2 _ =>
+      Nat.eqb (length a1) (length a2) &&
+      (fix go (l : list (str * ty)) : bool :=
+         match l with
+         | [] => true
+         | kv :: l' => match lookup (fst kv) a2 with
+                       | None => false
+                       | Some tb => may_become_equal (snd kv) tb && go l'
+                       end
+         end) a1
+  | _, _ => ty_equals a b
+  end.
+
 (* TestConformance: the list of reported errors, by class *)
 Inductive cerr := EUnsupportedAttr | EMissingAttr | ETupleLen | EMismatch.
 
